@@ -205,7 +205,8 @@ def check_case(case: dict, only: Optional[str] = None) -> list:
             add("C15|Segment.clone|elements|structure", f"{FU._short(FU.structure(cl), 150)} vs {FU._short(FU.structure(orig), 150)}")
             return fails
         for el in cl.elements:      # the clone's by-name handles must address the clone's elements
-            if getattr(cl, el.name, None) is not el:
+            h = getattr(cl, el.name, None)      # (several elements of one name are listed under that name)
+            if h is not el and not (isinstance(h, list) and any(x is el for x in h)):
                 add("C15|Segment.clone|by-name handle|identity", f"clone.{el.name} is not the clone's element")
                 break
     # ---- equal values for every constructor-settable attribute, same dtype
